@@ -373,8 +373,28 @@ func redirForms(rnd *rand.Rand) []call {
 			}
 		}
 	}
+	// two redirections in one form: an earlier redirection changes the port table (grows it, leaves
+	// holes, closes a standard port) before the swept one is evaluated
+	for _, cm := range redirCmds {
+		for _, first := range redirFirst {
+			cm2 := fdClass{cm.Name + "+" + first, []string{cm.Txt[0] + " " + first}}
+			for _, d := range fdDst {
+				for _, s := range fdSrc {
+					add("redir&", cm2, d, ">", s, "1", 0)
+				}
+			}
+			for _, s := range append(append([]fdClass{}, fdSrc...), fdClass{"hole", []string{"4", "6"}}) {
+				add("redir&", cm2, fdClass{"none", []string{""}}, "<", s, "0", 0)
+				add("redir&", cm2, fdClass{"stderr", []string{"2"}}, ">", s, "1", 0)
+				add("redir&", cm2, fdClass{"none", []string{""}}, ">", fdClass{s.Name, []string{s.Txt[len(s.Txt)-1]}}, "1", 0)
+			}
+		}
+	}
 	return dedupe(out)
 }
+
+// earlier redirections of the two-redirection forms
+var redirFirst = []string{"5>&1", "9>&-", "7>out2.txt", "3<&0", "2>&1", "1>&-", "0<&-", "5>&1 3>&-", "1024>&2"}
 
 // ---- pipeline forms: producer | consumer; the abstract form (which band the producer fills, how
 // much, which band the consumer waits on) travels to the judge.
